@@ -170,9 +170,14 @@ class Field(object):
         return (self.name, self.unpack(data, offset, psize))
 
     def pack(self, value, psize=0):
+        def pack1(v):
+            # v is an unpacked structure, or the raw value of a typedef
+            if isinstance(v, StructCore):
+                return v.pack(None, psize)
+            return self.type().pack([v], psize)
         if self.count > 0:
-            return b"".join([self.type().pack(v,psize) for v in value])
-        return self.type.pack(value,psize)
+            return b"".join([pack1(v) for v in value])
+        return pack1(value)
 
     def copy(self,obj=None):
         cls = self.__class__
